@@ -45,6 +45,7 @@ Definition w_loop : list choice :=
    (IO, ANone);
    (W A, ANone);
    (W A, ANone);
+   (W A, ANone);
    (W A, AApp (AppDone false));
    (W A, ANone);
    (W A, ANone);
@@ -111,6 +112,7 @@ Definition w_once : list choice :=
    (IO, ANone);
    (IO, ANone);
    (IO, ANone);
+   (W A, ANone);
    (W A, ANone);
    (W A, ANone);
    (W A, AApp (AppDone false));
